@@ -104,10 +104,115 @@ theorem quoted_scal_valid (p : Bytes) : (SCall.quo p).scal.Valid := by
   rw [escape_eq_spec, escapeSpec]
   exact quoteClose_escapeEach _ []
 
+/-- bytes that may stand anywhere in an unquoted scalar and also start one -/
+def safeByte (c : UInt8) : Bool :=
+  !TextTape.isBoundary c && !TextTape.isBlank c && c != 34 && c != 64
+
+theorem safe_of_nat : ∀ n, n < 256 → (isDigit (UInt8.ofNat n) = true ∨ n = 45 ∨ n = 46 ∨ n = 84) →
+    safeByte (UInt8.ofNat n) = true := by
+  decide +kernel
+
+theorem safe_digit (c : UInt8) (h : isDigit c = true ∨ c = 45 ∨ c = 46 ∨ c = 84) : safeByte c = true := by
+  have hc : c = UInt8.ofNat c.toNat := by simp
+  rw [hc]
+  apply safe_of_nat c.toNat c.toNat_lt
+  rcases h with h | h | h | h
+  · left; rw [← hc]; exact h
+  · right; left; subst h; rfl
+  · right; right; left; subst h; rfl
+  · right; right; right; subst h; rfl
+
+theorem valid_of_safe (b : Bytes) (hne : b ≠ []) (h : ∀ c ∈ b, safeByte c = true) : (⟨false, b⟩ : Scal).Valid := by
+  simp only [Scal.Valid, Bool.false_eq_true, if_false]
+  refine ⟨fun c hc => ?_, ?_⟩
+  · have := h c hc
+    simp [safeByte] at this
+    exact this.1.1.1
+  · cases b with
+    | nil => exact absurd rfl hne
+    | cons c r =>
+      have := h c (by simp)
+      simp [safeByte] at this
+      exact ⟨c, r, rfl, this.1.1.2, this.1.2, this.2⟩
+
+
+theorem fmtNatF_digits : ∀ (f n : Nat), ∀ c ∈ fmtNatF f n, isDigit c = true
+  | 0, _, c, h => by simp [fmtNatF] at h
+  | f + 1, n, c, h => by
+    unfold fmtNatF at h
+    by_cases h10 : n < 10
+    · simp only [h10, if_true, List.mem_singleton] at h
+      subst h; exact digitChar_isDigit n h10
+    · simp only [h10, if_false, List.mem_append, List.mem_singleton] at h
+      rcases h with h | h
+      · exact fmtNatF_digits f (n / 10) c h
+      · subst h; exact digitChar_isDigit _ (Nat.mod_lt _ (by omega))
+
+theorem fmtNat_ne_nil (n : Nat) : fmtNat n ≠ [] := by
+  unfold fmtNat fmtNatF
+  split <;> simp
+
+theorem fmtNat_safe (n : Nat) : ∀ c ∈ fmtNat n, safeByte c = true :=
+  fun c h => safe_digit c (.inl (fmtNatF_digits 20 n c h))
+
+theorem fmtInt_safe (i : Int) : ∀ c ∈ fmtInt i, safeByte c = true := by
+  intro c h
+  unfold fmtInt at h
+  split at h
+  · simp only [List.mem_cons] at h
+    rcases h with rfl | h
+    · exact safe_digit 45 (.inr (.inl rfl))
+    · exact fmtNat_safe _ c h
+  · exact fmtNat_safe _ c h
+
+theorem fmtInt_ne_nil (i : Int) : fmtInt i ≠ [] := by
+  unfold fmtInt; split
+  · simp
+  · exact fmtNat_ne_nil _
+
+theorem fmtIntPad_safe (w : Nat) (i : Int) : ∀ c ∈ fmtIntPad w i, safeByte c = true := by
+  intro c h
+  simp only [fmtIntPad, List.mem_append, List.mem_replicate] at h
+  rcases h with (h | h) | h
+  · split at h
+    · simp only [List.mem_singleton] at h; subst h; exact safe_digit 45 (.inr (.inl rfl))
+    · simp at h
+  · rw [h.2]; exact safe_digit 48 (.inl (by decide))
+  · split at h <;> exact fmtNat_safe _ c h
+
+theorem fmtIntPad_ne_nil (w : Nat) (i : Int) : fmtIntPad w i ≠ [] := by
+  simp only [fmtIntPad]
+  split <;> simp [fmtNat_ne_nil]
+
+theorem fmtDate_safe (f : DateFormat) (y : Int) (m d h : Nat) : ∀ c ∈ fmtDate f y m d h, safeByte c = true := by
+  intro c hc
+  have s45 := safe_digit 45 (.inr (.inl rfl))
+  have s46 := safe_digit 46 (.inr (.inr (.inl rfl)))
+  have s84 := safe_digit 84 (.inr (.inr (.inr rfl)))
+  unfold fmtDate at hc
+  cases f <;> simp only at hc <;> split at hc <;>
+    simp only [List.mem_append, List.mem_singleton] at hc <;>
+    (repeat (rcases hc with hc | hc)) <;>
+    first
+      | exact fmtIntPad_safe _ _ c hc
+      | exact fmtInt_safe _ c hc
+      | (subst hc; first | exact s45 | exact s46 | exact s84)
+
+theorem fmtDate_ne_nil (f : DateFormat) (y : Int) (m d h : Nat) : fmtDate f y m d h ≠ [] := by
+  unfold fmtDate
+  cases f <;> simp only <;> split <;> simp [fmtIntPad_ne_nil, fmtInt_ne_nil]
+
 theorem scall_valid (c : SCall) (h : c.Valid) : c.scal.Valid := by
   cases c with
   | unq b => exact h
   | quo p => exact quoted_scal_valid p
+  | raw s => exact h
+  | bool b => cases b <;> exact valid_of_safe _ (by simp) (by decide +kernel)
+  | i32 i => exact valid_of_safe _ (fmtInt_ne_nil i) (fmtInt_safe i)
+  | u32 n => exact valid_of_safe _ (fmtNat_ne_nil n) (fmtNat_safe n)
+  | i64 i => exact valid_of_safe _ (fmtInt_ne_nil i) (fmtInt_safe i)
+  | u64 n => exact valid_of_safe _ (fmtNat_ne_nil n) (fmtNat_safe n)
+  | date f y m d hr => exact valid_of_safe _ (fmtDate_ne_nil f y m d hr) (fmtDate_safe f y m d hr)
 
 /-! ### the writer on flat call lists -/
 
@@ -144,6 +249,9 @@ theorem step_scall (s : State) (c : SCall) : step s c.call = writeRaw s c.scal.t
   cases c with
   | unq b => simp [SCall.call, step, writeUnquoted, writeRaw, SCall.scal, Scal.text]
   | quo p => simp [SCall.call, step, writeQuoted, writeRaw, SCall.scal, Scal.text]
+  | bool b => cases b <;> simp [SCall.call, step, writeBool, writeUnquoted, writeRaw, SCall.scal, Scal.text]
+  | raw sc => rfl
+  | _ => simp [SCall.call, step, writeUnquoted, writeRaw, SCall.scal, Scal.text]
 
 theorem opTT_text (o : Writer.Op) : (opTT o).text = o.symbol := by
   cases o <;> rfl
